@@ -38,9 +38,16 @@ def __getattr__(name):
         return _fft_func(*args, **kwargs)
 
     @func.register(da.Array)
-    def _(*args, **kwargs):
+    def _(x, *args, **kwargs):
+        if name.endswith("n"):
+            # Given only ``s``, scipy transforms the last ``len(s)`` axes,
+            # whereas the dask wrapper would pick the first ones.
+            s = args[0] if args else kwargs.get("s")
+            axes = args[1] if len(args) > 1 else kwargs.get("axes")
+            if s is not None and axes is None and len(args) < 2:
+                kwargs["axes"] = tuple(range(x.ndim - len(s), x.ndim))
         wrapped_func = da.fft.fft_wrap(_fft_func)
-        return wrapped_func(*args, **kwargs)
+        return wrapped_func(x, *args, **kwargs)
 
     func.__qualname__ = _fft_func.__qualname__
     func.__name__ = _fft_func.__name__
